@@ -166,3 +166,31 @@ Proof. exact QuestradeProps.ex_sheet_facts. Qed.
 Example C18_layout_nonvacuous :
   run exact HeaderEnumerated no_opts ex_sheet_blank = run exact HeaderEnumerated no_opts ex_sheet.
 Proof. exact QuestradeProps.blank_header_enumerated_same. Qed.
+
+(* both layout statements under the name used in DESIGN.md *)
+Theorem C18_layout :
+  (forall k h cells hdr rows,
+     Forall (fun r => length r = length hdr) rows -> (k <= length hdr)%nat ->
+     length cells = length rows -> unrelated_header h = true ->
+     forall A o, run A HeaderEnumerated o (insert_col k h cells (hdr :: rows))
+                 = run A HeaderEnumerated o (hdr :: rows)) /\
+  (forall p hdr rows,
+     NoDup p -> (forall i, (i < length hdr)%nat -> In i p) ->
+     Forall (fun r => length r = length hdr) rows ->
+     Forall (unique_name hdr) used_headers ->
+     forall A o, run A HeaderEnumerated o (permute_cols p (hdr :: rows))
+                 = run A HeaderEnumerated o (hdr :: rows)).
+Proof. split; [exact C18_layout_insert | exact C18_layout_permute]. Qed.
+Check C18_layout :
+  (forall k h cells hdr rows,
+     Forall (fun r => length r = length hdr) rows -> (k <= length hdr)%nat ->
+     length cells = length rows -> unrelated_header h = true ->
+     forall A o, run A HeaderEnumerated o (insert_col k h cells (hdr :: rows))
+                 = run A HeaderEnumerated o (hdr :: rows)) /\
+  (forall p hdr rows,
+     NoDup p -> (forall i, (i < length hdr)%nat -> In i p) ->
+     Forall (fun r => length r = length hdr) rows ->
+     Forall (unique_name hdr) used_headers ->
+     forall A o, run A HeaderEnumerated o (permute_cols p (hdr :: rows))
+                 = run A HeaderEnumerated o (hdr :: rows)).
+Print Assumptions C18_layout.
